@@ -2021,6 +2021,47 @@ func moreClientScenarios(o *out, r *rng) {
 		_ = e.c.Close()
 		o.count("response-during-the-first-write")
 	}
+	// (4d) the response and the final timeout of one transaction released at the same instant (reader and
+	// collector goroutines): the handler runs once, and afterwards 640 fresh transactions each get their own event
+	{
+		e := mk(false, stun.WithNoRetransmit)
+		if e != nil {
+			for round := 0; round < 300; round++ {
+				id := 10000 + round
+				_ = startTID(e, id, clientTID(id), 20)
+				now := agentBase.Add(time.Duration(200 * (round + 1)))
+				start := make(chan struct{})
+				var wg sync.WaitGroup
+				wg.Add(2)
+				go func() { defer wg.Done(); <-start; e.conn.rd <- response(r, id, 0) }()
+				go func() { defer wg.Done(); <-start; e.clock.set(now); e.coll.f(now) }()
+				close(start)
+				wg.Wait()
+				idle(e)
+				if n := count(e, id); n != 1 {
+					d := fmt.Sprintf("x response-racing-timeout round %d: invoked=%d", round, n)
+					o.failFor("C10", "handler-not-invoked-exactly-once", d)
+					o.failFor("C12", "handler-not-invoked-exactly-once", d)
+					break
+				}
+			}
+			for k := 0; k < 640; k++ {
+				_ = startTID(e, 20000+k, clientTID(20000+k), 20)
+			}
+			_ = e.c.Close()
+			e.mu.Lock()
+			for k := 0; k < 640; k++ {
+				if got := e.invoked[20000+k]; len(got) != 1 || got[0] != 20000+k {
+					d := fmt.Sprintf("x after 300 rounds of a response racing the final timeout, a transaction's handler saw events for %v (its ID is %d)", got, 20000+k)
+					o.failFor("C10", "handler-not-invoked-exactly-once", d)
+					o.failFor("C12", "event-delivered-to-another-transaction", d)
+					break
+				}
+			}
+			e.mu.Unlock()
+			o.count("response-racing-timeout")
+		}
+	}
 	// (5) the library's own ticker collector with a custom clock: deadlines are judged by that clock
 	for i := 0; i < 6; i++ {
 		clock := &vclock{now: agentBase}
